@@ -16,6 +16,7 @@ SEEDS = {
  "seed_b256_cmp_const": "library;\nconst A: bool = 0x0000000000000000000000000000000000000000000000000000000000000001 > 0x0000000000000000000000000000000000000000000000000000000000000002;\npub fn f() -> bool { A }\n",
  "seed_u256_match_big_literal": "library;\n#[inline(never)]\nfn id(x: u256) -> u256 { x }\n#[test]\nfn t() { match id(0x1u256) { 0xf8861d1e00000000000000000000000000000000u256 => { log(1u64); } _ => { log(2u64); } } }\n",
  "seed_unclosed_comment_multibyte": "library;\n/*é",
+ "seed_storage_explicit_key_overflow": "contract;\nstorage { a in 0xffffffffffffffffffffffffffffffffffffffffffffffffffffffffffffffff: (b256, b256) = (b256::zero(), b256::zero()) }\nabi A { fn f(); }\nimpl A for Contract { fn f() {} }\n",
  "seed_shift_huge_const": "library;\nconst A: u256 = 0x1u256 << 0xFFFFFFFFFFFFu64;\npub fn f() -> u256 { A }\n",
 }
 
